@@ -554,6 +554,20 @@ def jobs_C13(tier, seed):
         s['objects'] = dict(ob)
         jobs.append(job(f'wiring {name}', s, {'sched': 0} if tier == 'quick' else {'sched': 1}, want,
                         forced_cost=1, max_execs=20000))
+    # cancel / failure while reads are being throttled
+    for name, trs, c in (('upload', [T_up('path', 40)], C), ('ranged download', [T_dl('path', 'b40')], C2)):
+        s = scn(copy.deepcopy(trs), dict(c), seed=seed, bw_threshold=2, body_read_size=2, horizon=100000,
+                inject=[{'kind': 'cancel', 'target': 0}], fields=True, field_reads=False)
+        s['objects'] = dict(ob)
+        jobs.append(job(f'wiring cancel {name}', s, {'inject': 1, 'sched': 0} if tier == 'quick' else {'inject': 1, 'sched': 1},
+                        want, forced_cost=1, max_execs=50000))
+    # a request body smaller than the limiter's read threshold that the client re-sends (rewind +
+    # re-read) several times: every attempt moves bytes, every attempt must be charged
+    C3 = dict(C, max_request_concurrency=1, max_submission_concurrency=1)
+    for src in ('path', 'seekable'):
+        s = scn([T_up(src, 40)], dict(C3), seed=seed, bw_threshold=50, body_read_size=20, horizon=100000,
+                faults={'sites': ['body:retry'], 'max_body_retries': 3})
+        jobs.append(job(f'wiring re-sent small body {src}', s, {'sched': 0, 'env': 3}, want, forced_cost=1, max_execs=50000))
     return jobs
 
 
